@@ -92,6 +92,13 @@ CLAIMED = {
          "PfdTableReplacedOrKept and ProvisionedApplicationUsable (a well-formed establishment naming a provisioned application is not refused).",
          "The reading of the UE-side endpoint is the as-written one (an explicit prefix or 'any' on the UE side replaces the UE address match, DESIGN A.1); UP4 applications entries pending with C04. " + TRUST,
          "5 C08"),
+ "C13": ("TLA+ Notifier (rate limiter, model-checked) + R-spec Pfcp/TraceE2E!ReportEv: TLC judges every Session Report Request the real agent sends for datapath reports placed inside / outside the interval",
+         "The harness writes F-SEIDs to the BESS notify socket for notifying, non-notifying, deleted and unknown sessions of one association; the notification interval is set to 200 ms through the guarded hook "
+         "(one thorough shard uses the real 20 s) and gaps are clearly inside (<= 0.5 x) or clearly outside (>= 1.5 x) it. TLC checks ReportForwardedWhenDue (first report never suppressed; forwarded again once the interval has passed), "
+         "NoneForUnknownOrSilentSessions, AtMostOncePerInterval and ReportRequestShape (CP SEID in the header, fresh sequence number, Downlink Data Report naming a downlink PDR of the session). "
+         "Notifier.tla (as coded) is model-checked for all report/tick sequences of 3 sessions, interval 3, 8 ticks.",
+         "One association (the code documents multi-association routing as unimplemented); BESS notify socket only so far (UP4 digests pending); time stamps are the harness' clock with 0.5x / 1.5x margins. " + TRUST,
+         "5 C13"),
 }
 
 def hooks_commits():
